@@ -370,6 +370,7 @@ def _worker(args):
 def run_property(mod, tier, seed):
     pid = mod.PID
     t0 = time.monotonic()
+    _limit_memory()
     setup_imports()
     from . import findings
 
@@ -475,8 +476,10 @@ def run_property(mod, tier, seed):
         out_lines.append(f"  bucket={v['bucket']} count={v['count']} detail={v['detail'][:300]}")
         nviol += 1
 
-    for kid, detail in sorted(merged.known_hits.items()):
-        out_lines.append(f"KNOWN-FINDING: property={pid} {known.text(kid)} [{kid}; hit {merged.excluded[kid]}x]")
+    for p_, kid, text in known.entries:      # every listed finding of this property, reached in this run or not
+        if p_ == pid:
+            n = merged.excluded.get(kid, 0)
+            out_lines.append(f"KNOWN-FINDING: property={pid} {text} [{kid}; " + (f"hit {n}x in this run]" if n else "not reached by this run's cases]"))
 
     # generator health floors
     floors = getattr(mod, "FLOORS", {}).get(tier, {})
@@ -541,6 +544,7 @@ def run_replay(mod, path):
     from . import findings
 
     known = findings.Known.load()
+    _limit_memory()
     ctx = Ctx(mod.PID, "quick", 1, -1, known)
     rec = json.load(open(path))
     discs = mod.replay(ctx, rec["kind"], unhex(rec["case"]))
